@@ -2,7 +2,7 @@
 from decimal import Decimal
 from typing import Final, Union
 
-from utype import DataClass, Field, Options, Schema, exc
+from utype import DataClass, Field, Options, Schema, exc, types
 from vt.ob import ob
 
 PROP = 'C07'
@@ -86,6 +86,11 @@ class K8(Schema):
     n: int = Field(alias='N1', ge=0, required=False)      # key and attribute name differ
 
     @property
+    @Field(dependencies=['o', 't'])
+    def w(self) -> int:                                     # declared before the property it depends on (a diamond: o -> t -> w, o -> w)
+        return self.o + self.t
+
+    @property
     @Field(dependencies=['o'])
     def t(self) -> int:
         return self.o * 2
@@ -122,7 +127,7 @@ SPEC = {
     'K7': (K7, {'a': ('A1', True, False, False), 'h': ('h', False, False, True), 'b': ('b', False, False, False),
                 'key': ('key', True, False, True)}, ['a', 'A1', 'h', 'b', 's', 'key', 'zz']),
     'K8': (K8, {'o': ('o', False, False, False), 'd': ('d', False, False, False), 'n': ('N1', False, False, False)},
-           ['o', 'd', 'n', 'N1', 't', 'u', 'zz']),
+           ['o', 'd', 'n', 'N1', 't', 'u', 'w', 'zz']),
     'K3': (K3, {'inner': ('inner', True, False, False), 'n': ('n', False, False, False), 'opt': ('opt', False, False, False)},
            ['inner', 'n', 'opt', 'zz']),
 }
@@ -257,6 +262,8 @@ def apply(V, name, inst, op, tag=''):
             else:
                 inst.update(other)
             return target, False, 'instance', dict(dict.items(other))
+        if op in ('update-2keys', 'ior-2keys') and name == 'K8':
+            keys = ['o', 'd', 'N1', 't', 'zz']        # (pairs over the full vocabulary of K8 do not close in the quick budget)
         key = V.pick(tag + 'key', keys)
         if op in ('update-2keys', 'ior-2keys'):
             # a multi-key update may be applied partially when a later key is rejected, but whatever it leaves behind
@@ -337,17 +344,19 @@ def valid(V, name, inst, sig_prefix, det, immutables, dep_changed=False):
                     sig_prefix + ':views-disagree:' + att, lambda: det() + ' ; attribute %s -> %r' % (att, got))
         if immutable and att in immutables:
             V.check(present and data[okey] == immutables[att], sig_prefix + ':immutable-changed:' + att, det)
-    extra = set(data) - {f[0] for f in fields.values()} - ({'s'} if name in ('K2', 'K7') else {'t', 'u'} if name == 'K8' else set())
+    extra = set(data) - {f[0] for f in fields.values()} - ({'s'} if name in ('K2', 'K7') else {'t', 'u', 'w'} if name == 'K8' else set())
     if name == 'K8':
         # the chain o -> t -> u: whenever a dependency and its dependant are both present they agree, and right after an
         # assignment to o both dependants are present
-        for k in ('t', 'u'):
+        for k in ('t', 'u', 'w'):
             if k in data:
                 V.check(ok_int(data[k]), sig_prefix + ':nonconforming:' + k, det)
         if 'o' in data and ('t' in data or dep_changed):
             V.check(data.get('t') == data['o'] * 2, sig_prefix + ':dependant-stale', det)
         if 't' in data and ('u' in data or dep_changed):
             V.check(data.get('u') == data['t'] + 1, sig_prefix + ':dependant-stale:transitive', det)
+        if 'o' in data and 't' in data and ('w' in data or dep_changed):
+            V.check(data.get('w') == data['o'] + data['t'], sig_prefix + ':dependant-stale:diamond', det)
     if name == 'K5':
         # addition=int: unknown keys are kept, converted
         V.check(all(isinstance(data[k], int) and not isinstance(data[k], bool) for k in extra), sig_prefix + ':unparsed-addition', det)
@@ -528,3 +537,46 @@ def k9_equal_values(V):
     else:
         V.cover('applied')
     V.check(after['shown'] == str(after['amount']) and after['kind'] == type(after['flag']).__name__, 'step:dependant-stale:equal-value', det)
+
+
+# ------------------------------------------------------------------ a dependant property that rejects the new value
+class K10(Schema):
+    a: int = Field(ge=0, default=10)
+    b: int = Field(ge=0, default=1)
+
+    @property
+    @Field(dependencies=['a'])
+    def rest(self) -> types.PositiveInt:
+        return self.a - 5
+
+
+@ob('step/K10/rejecting-dependant', marks=['applied', 'raised'], budget=(40, 120),
+    bounds='Schema whose property rest = a - 5 must be a positive int: a valid state (a solver int >= 6), then a assigned (setattr / '
+           'setitem / update / |=) a solver int | "7" | "x": the operation either raises and leaves the data as it was, or leaves '
+           'rest == a - 5 > 0')
+def k10_rejecting_dependant(V):
+    inst = K10(a=V.int('a0', 6, None))
+    k = V.pick('vkind', ['int', 'num', 'bad'])
+    v = V.int('v') if k == 'int' else '7' if k == 'num' else 'x'
+    op = V.pick('op', ['setattr', 'setitem', 'update', 'ior'])
+    before = (dict(dict.items(inst)), {x: y for x, y in inst.__dict__.items() if not x.startswith('__')})
+    raised = None
+    try:
+        if op == 'setattr':
+            inst.a = v
+        elif op == 'setitem':
+            inst['a'] = v
+        elif op == 'update':
+            inst.update({'a': v})
+        else:
+            inst |= {'a': v}
+    except Exception as e:  # noqa
+        raised = e
+    after = (dict(dict.items(inst)), {x: y for x, y in inst.__dict__.items() if not x.startswith('__')})
+    det = lambda: 'K10 %r ; %s(a, %r) %s ; after %r' % (before[0], op, v, type(raised).__name__ if raised else 'ok', after[0])
+    if raised:
+        V.check(after == before, 'step:raised-but-changed:dependant-rejects', det)
+        V.cover('raised')
+    else:
+        V.cover('applied')
+    V.check(ok_int(after[0].get('a')) and after[0].get('rest') == after[0]['a'] - 5 and after[0]['rest'] > 0, 'step:dependant-stale', det)
